@@ -1,8 +1,151 @@
 package main
 
-import "verif/proto"
+import (
+	"fmt"
+	"strings"
 
+	"luahelper-lsp/langserver/check/annotation/annotateast"
+	"luahelper-lsp/langserver/check/annotation/annotateparser"
+	"luahelper-lsp/langserver/check/compiler/lexer"
+
+	"verif/proto"
+)
+
+// dumpType renders an annotation type as a canonical S-expression (singleton unions flattened,
+// nested unions merged), the same normal form luagen.AType.Norm produces.
+func dumpType(t annotateast.Type) string {
+	switch x := t.(type) {
+	case nil:
+		return "<nil>"
+	case *annotateast.NormalType:
+		return x.StrName
+	case *annotateast.MultiType:
+		var ps []string
+		var flat func(tt annotateast.Type)
+		flat = func(tt annotateast.Type) {
+			if m, ok := tt.(*annotateast.MultiType); ok {
+				for _, e := range m.TypeList {
+					flat(e)
+				}
+				return
+			}
+			ps = append(ps, dumpType(tt))
+		}
+		flat(x)
+		if len(ps) == 1 {
+			return ps[0]
+		}
+		return "(| " + strings.Join(ps, " ") + ")"
+	case *annotateast.ArrayType:
+		return "([] " + dumpType(x.ItemType) + ")"
+	case *annotateast.TableType:
+		if x.EmptyFlag {
+			return "table"
+		}
+		return "(table " + dumpType(x.KeyType) + " " + dumpType(x.ValueType) + ")"
+	case *annotateast.FuncType:
+		var ps []string
+		for i, n := range x.ParamNameList {
+			o := ""
+			if i < len(x.ParamOptionList) && x.ParamOptionList[i] {
+				o = "?"
+			}
+			pt := "<none>"
+			if i < len(x.ParamTypeList) {
+				pt = dumpType(x.ParamTypeList[i])
+			}
+			ps = append(ps, n+o+":"+pt)
+		}
+		var rs []string
+		for _, r := range x.ReturnTypeList {
+			rs = append(rs, dumpType(r))
+		}
+		return "(fun (" + strings.Join(ps, " ") + ") (" + strings.Join(rs, " ") + "))"
+	case *annotateast.ConstType:
+		if x.QuotesFlag {
+			return "\"" + x.Name + "\""
+		}
+		return "const:" + x.Name
+	case *annotateast.NotValidType:
+		return "<notvalid>"
+	}
+	return fmt.Sprintf("<%T>", t)
+}
+
+func dumpState(s annotateast.AnnotateState) (dump string, types []annotateast.Type) {
+	switch x := s.(type) {
+	case *annotateast.AnnotateTypeState:
+		var ps []string
+		for _, t := range x.ListType {
+			ps = append(ps, dumpType(t))
+			types = append(types, t)
+		}
+		return "(type " + strings.Join(ps, " ") + ")", types
+	case *annotateast.AnnotateClassState:
+		return "(class " + x.Name + " [" + strings.Join(x.ParentNameList, " ") + "])", nil
+	case *annotateast.AnnotateFieldState:
+		vis := [...]string{"public", "protected", "private"}
+		v := fmt.Sprint(int(x.FieldScopeType))
+		if int(x.FieldScopeType) < len(vis) {
+			v = vis[x.FieldScopeType]
+		}
+		return "(field " + v + " " + x.Name + " " + dumpType(x.FiledType) + ")", []annotateast.Type{x.FiledType}
+	case *annotateast.AnnotateParamState:
+		o := ""
+		if x.IsOptional {
+			o = "?"
+		}
+		return "(param " + x.Name + o + " " + dumpType(x.ParamType) + ")", []annotateast.Type{x.ParamType}
+	case *annotateast.AnnotateReturnState:
+		var ps []string
+		for _, t := range x.ReturnTypeList {
+			ps = append(ps, dumpType(t))
+			types = append(types, t)
+		}
+		return "(return " + strings.Join(ps, " ") + ")", types
+	case *annotateast.AnnotateAliasState:
+		return "(alias " + x.Name + " " + dumpType(x.AliasType) + ")", []annotateast.Type{x.AliasType}
+	case *annotateast.AnnotateGenericState:
+		return "(generic [" + strings.Join(x.NameList, " ") + "] [" + strings.Join(x.ParentNameList, " ") + "])", nil
+	case *annotateast.AnnotateOverloadState:
+		if x.OverFunType == nil {
+			return "(overload <nil>)", nil
+		}
+		return "(overload " + dumpType(x.OverFunType) + ")", []annotateast.Type{x.OverFunType}
+	case *annotateast.AnnotateVarargState:
+		return "(vararg " + dumpType(x.VarargType) + ")", []annotateast.Type{x.VarargType}
+	case *annotateast.AnnotateEnumState:
+		return "(enum)", nil
+	case *annotateast.AnnotateEnumEndState:
+		return "(enum-end)", nil
+	case *annotateast.AnnotateNotValidState:
+		return "(notvalid)", nil
+	}
+	return fmt.Sprintf("(%T)", s), nil
+}
+
+// runAnnot parses each line on its own. A line is given as it appears after the leading "--" of the
+// comment, e.g. "-@type number | string @note".
 func runAnnot(req *proto.Request) (resp proto.Response) {
-	resp.Fatal = "annot not implemented"
+	for i, ln := range req.Lines {
+		ci := &lexer.CommentInfo{ShortFlag: true, HeadFlag: true}
+		ci.LineVec = append(ci.LineVec, lexer.CommentLine{Str: ln, Line: i + 1, Col: 2})
+		frag, errs := annotateparser.ParseCommentFragment(ci)
+		al := proto.AnnotLine{}
+		if len(errs) > 0 {
+			al.Err = errs[0].ErrStr + " | " + errs[0].ShowStr
+		} else if len(frag.Stats) == 1 {
+			al.OK = true
+			d, types := dumpState(frag.Stats[0])
+			al.Dump = d
+			for _, t := range types {
+				al.Types = append(al.Types, annotateast.TypeConvertStr(t))
+			}
+		} else {
+			al.Err = fmt.Sprintf("no statement recognised (%d)", len(frag.Stats))
+		}
+		resp.Annot = append(resp.Annot, al)
+	}
+	resp.OK = true
 	return
 }
